@@ -7,6 +7,7 @@ import (
 	"math/rand/v2"
 	"runtime/debug"
 	"strings"
+	"time"
 
 	"verif/harness/internal/gen"
 	"verif/harness/internal/run"
@@ -31,6 +32,7 @@ type c07Event struct {
 type countIter struct{ n, max int }
 
 func (it *countIter) Next() (any, bool) {
+	c07Pulls++
 	if it.n >= it.max {
 		return nil, false
 	}
@@ -239,8 +241,197 @@ var kC07 = run.NewKind("c07.cancel", func(c *run.Ctx, t c07Case) *run.Fail {
 			return run.Failf("%q cancelled at poll %d: the interpreter polled %d times (it must stop at the closing poll)", t.Src, k, endPolls)
 		}
 	}
-	return nil
+	if f := c07External(c, t, ref, refTrunc); f != nil {
+		return f
+	}
+	return c07StaleHandle(c, t, ref, refTrunc)
 })
+
+// flagCtx is cancelled from outside, between two Next calls (the consumer's cancel()).
+type flagCtx struct {
+	closed bool
+	polls  int64
+	limit  int64 // safety bound: the context closes itself after this many polls (0 = 100000)
+}
+
+func (f *flagCtx) Deadline() (time.Time, bool) { return time.Time{}, false }
+func (f *flagCtx) Value(any) any               { return nil }
+func (f *flagCtx) Err() error {
+	if f.closed {
+		return context.Canceled
+	}
+	return nil
+}
+func (f *flagCtx) Done() <-chan struct{} {
+	f.polls++
+	if f.limit == 0 {
+		f.limit = 100000
+	}
+	if f.polls > f.limit {
+		f.closed = true
+	}
+	if f.closed {
+		return closedChan
+	}
+	return nil
+}
+
+var closedChan = func() chan struct{} { c := make(chan struct{}); close(c); return c }()
+
+var c07Pulls int // pulls of the user-supplied iterators (countIter), reset per run
+
+func c07Start(t c07Case, ctx context.Context) (gojq.Iter, error) {
+	q, err := gojq.Parse(t.Src)
+	if err != nil {
+		return nil, err
+	}
+	switch t.Opt {
+	case "query":
+		return q.RunWithContext(ctx, t.Input.V), nil
+	case "badvars":
+		code, err := gojq.Compile(q, gojq.WithVariables([]string{"$v"}))
+		if err != nil {
+			return nil, err
+		}
+		return code.RunWithContext(ctx, t.Input.V), nil
+	case "badvars2":
+		code, err := gojq.Compile(q)
+		if err != nil {
+			return nil, err
+		}
+		return code.RunWithContext(ctx, t.Input.V, 1, 2), nil
+	}
+	code, err := gojq.Compile(q, c07Opts(t.Opt)...)
+	if err != nil {
+		return nil, err
+	}
+	return code.RunWithContext(ctx, t.Input.V), nil
+}
+
+// c07External: the consumer cancels between two Next calls, after j events. The very next Next must return the
+// context's error (the interpreter always has a next step until it has reported exhaustion), no user iterator may be
+// pulled after the cancellation, and afterwards the iterator is exhausted.
+func c07External(c *run.Ctx, t c07Case, ref []c07Event, refTrunc bool) (fail *run.Fail) {
+	defer func() {
+		if r := recover(); r != nil {
+			fail = run.Failf("%q: panic with a cancellation between two Next calls: %v", t.Src, r)
+		}
+	}()
+	if t.Opt == "badvars" || t.Opt == "badvars2" {
+		return nil
+	}
+	for j := 0; j <= min(len(ref), 12); j++ {
+		ctx := &flagCtx{}
+		iter, err := c07Start(t, ctx)
+		if err != nil {
+			return nil
+		}
+		c07Pulls = 0
+		ok := true
+		for i := 0; i < j && ok; i++ {
+			var v any
+			v, ok = iter.Next()
+			if ok && !sameEvent(eventOf(v), ref[i]) {
+				return run.Failf("%q: event %d differs between two uncancelled runs", t.Src, i)
+			}
+		}
+		if !ok {
+			continue // exhaustion was reported before j events
+		}
+		ctx.closed = true
+		pulls := c07Pulls
+		v, ok := iter.Next()
+		c.Count("cancellations_between_next_calls", 1)
+		if one, isOne := iter.(interface{ Next() (any, bool) }); isOne && one != nil && !ok && t.Opt == "query" && j == len(ref) && len(ref) == 1 && ref[0].err != nil {
+			continue // compile errors are one-shot iterators, not interpreter runs
+		}
+		if !ok {
+			if _, isEnv := gojq.VerifFootprint(iter); !isEnv {
+				continue // not an interpreter run (one-shot iterator of an argument-count or compile error)
+			}
+			return run.Failf("%q: the context was cancelled after %d events (before exhaustion was reported); the next Next returned (nil, false) instead of the context's error", t.Src, j)
+		}
+		if e, isErr := v.(error); !isErr || !errors.Is(e, context.Canceled) {
+			if _, isEnv := gojq.VerifFootprint(iter); !isEnv {
+				continue
+			}
+			return run.Failf("%q: the context was cancelled after %d events; the next Next returned %v instead of the context's error", t.Src, j, v)
+		}
+		if c07Pulls != pulls {
+			return run.Failf("%q: after the cancellation (following %d events) the user-supplied iterator was advanced %d more time(s); those values are lost", t.Src, j, c07Pulls-pulls)
+		}
+		for i := 0; i < 2; i++ {
+			if v, ok := iter.Next(); ok {
+				return run.Failf("%q: Next returned (%v, true) after the context error", t.Src, v)
+			}
+		}
+	}
+	return nil
+}
+
+func eventOf(v any) c07Event {
+	if e, ok := v.(error); ok {
+		return c07Event{err: e}
+	}
+	return c07Event{val: v}
+}
+
+// c07StaleHandle: a finished iterator (exhausted, or ended by the context error) stays finished even after other
+// runs have been started, and the other runs are not disturbed by advancing it.
+func c07StaleHandle(c *run.Ctx, t c07Case, ref []c07Event, refTrunc bool) (fail *run.Fail) {
+	defer func() {
+		if r := recover(); r != nil {
+			fail = run.Failf("%q: panic while advancing a finished iterator: %v", t.Src, r)
+		}
+	}()
+	other := c07Case{Src: "\"a\", \"b\", \"c\"", Input: run.TV{V: nil}}
+	for mode := 0; mode < 2; mode++ {
+		ctx := &flagCtx{}
+		iter, err := c07Start(t, ctx)
+		if err != nil {
+			return nil
+		}
+		n := 0
+		for ; n < c07MaxEvents; n++ {
+			if mode == 1 && n == min(len(ref), 2) {
+				ctx.closed = true
+			}
+			if _, ok := iter.Next(); !ok {
+				break
+			}
+		}
+		if n >= c07MaxEvents {
+			return nil // not finished within the bound
+		}
+		// start two other runs, leave them pending, then advance the finished one again
+		b1, _ := c07Start(other, &flagCtx{})
+		b2, _ := c07Start(t, &flagCtx{})
+		for i := 0; i < 3; i++ {
+			if v, ok := iter.Next(); ok {
+				return run.Failf("%q: a finished iterator returned (%v, true) again after another run had been started (call %d)", t.Src, v, i+1)
+			}
+		}
+		var got []string
+		for {
+			v, ok := b1.Next()
+			if !ok {
+				break
+			}
+			got = append(got, run.Canon(v))
+		}
+		if strings.Join(got, ",") != `"a","b","c"` {
+			return run.Failf("%q: advancing a finished iterator disturbed another run: it yields %v instead of \"a\",\"b\",\"c\"", t.Src, got)
+		}
+		for i := 0; i < len(ref) && i < 5; i++ {
+			v, ok := b2.Next()
+			if !ok || !sameEvent(eventOf(v), ref[i]) {
+				return run.Failf("%q: a second run of the same program started while a finished iterator was advanced differs at event %d", t.Src, i)
+			}
+		}
+		c.Count("finished_iterators_advanced_after_other_runs", 1)
+	}
+	return nil
+}
 
 var c07Pool = []string{
 	"def f: f; f", "def f: ., f; f", "def f: .+1 | f; f", "def f(x): x | f(x); f(.)", "def f: if . > 50 then . else .+1 | f end; 0 | f",
